@@ -33,9 +33,9 @@ RULE = ('cases: seeded model configurations (plain / grid / continuous world, wr
         'of different seeds of one configuration differ. Non-trivial: trajectory with >=20 random picks/shuffles whose digest was '
         'compared under >=8 perturbations; distinct by (configuration, seed).')
 ASSUMPTIONS = ['"for all seeds / hash seeds / process counts" is sampled', 'the fixture draws all of its own randomness from model.random']
-FLOORS = {'quick': {'digests_compared': 300, 'trajectories': 40, 'watched_calls': 20000, 'global_reseeds': 5000, 'interleaved_other_models': 500,
-                    'fresh_interpreter_digests': 120, 'batch_worker_digests': 100, 'distinct_seed_pairs_differ': 30, 'seed_zero_trajectories': 8,
-                    'hash_seeds_used': 4, 'reach:Core.Environment.get_random_agent': 20000, 'reach:Core.Environment.shuffle': 10000},
+FLOORS = {'quick': {'digests_compared': 280, 'trajectories': 24, 'watched_calls': 20000, 'global_reseeds': 5000, 'interleaved_other_models': 500,
+                    'fresh_interpreter_digests': 96, 'batch_worker_digests': 72, 'distinct_seed_pairs_differ': 30, 'seed_zero_trajectories': 6,
+                    'hash_seeds_used': 4, 'reach:Core.Environment.get_random_agent': 14000, 'reach:Core.Environment.shuffle': 8600},
           'thorough': {'digests_compared': 10000, 'trajectories': 1000, 'watched_calls': 1000000}}
 EXHAUSTIVE = {}
 
